@@ -168,17 +168,23 @@ def body_steps(ctx, case):
         Xt = torch.from_numpy(X).float() / 255.0
         full = ctx.must("forward_raises", net, Xt, labels_t).numpy()            # (L, N, C)
         results = {}
-        for name, cached in (("cached", True), ("uncached", False)):
+        for name, cached in (("cached", True), ("uncached", False), ("cached_with_attention", True)):
             m = copy.deepcopy(net)
             enc = m.encode(Xt)
             embs = torch.empty((0, N, cfg["width"]))
             rows = []
             for t in range(L):
                 embs = torch.cat((embs, m.dec_embeder(labels_t[:, t]).unsqueeze(0)))
-                out = ctx.must("infer_raises", m.trans_decoder.infer, m.pos_encoder(embs), enc, cached)
+                if name.endswith("with_attention"):
+                    # the documented return_attention mode hands back (output, attention weights): the output is the same
+                    both = ctx.must("infer_raises", m.trans_decoder.infer, m.pos_encoder(embs), enc, cached, True)
+                    ctx.check(isinstance(both, tuple) and len(both) == 2, "return_attention_mode_does_not_return_a_pair", desc)
+                    out = both[0]
+                else:
+                    out = ctx.must("infer_raises", m.trans_decoder.infer, m.pos_encoder(embs), enc, cached)
                 rows.append(m.dec_out_proj(out).numpy().copy())
             results[name] = np.stack(rows)                                          # (L, N, C)
-    for name in ("cached", "uncached"):
+    for name in ("cached", "uncached", "cached_with_attention"):
         for t in range(L):
             ctx.check(close(results[name][t], full[t]), name + "_step_scores_differ_from_forward_pass",
                       lambda: "step %d: max abs difference %.3g; " % (t + 1, float(np.abs(results[name][t] - full[t]).max())) + desc())
